@@ -255,7 +255,7 @@ func isStableKey(k LeafKey) bool {
 		return false
 	}
 	for _, p := range stableDecl[k.Type] {
-		if k.Path == p || strings.HasPrefix(k.Path, p+".") {
+		if p == "*" || k.Path == p || strings.HasPrefix(k.Path, p+".") {
 			return true
 		}
 	}
